@@ -32,7 +32,7 @@ static const int MF2REAL[5] = { FORMAT_AUTO, FORMAT_XZ, FORMAT_LZMA, FORMAT_LZIP
 static const char *const MFNAME[5] = { "auto", "xz", "lzma", "lzip", "raw" };
 
 static long evals, distinct, inv_checked, inv_shadow, inv_tar, n_target, n_already, n_unknown;
-static int dumping;
+static int dumping, sample_ok;
 static unsigned long obs_seen[2][5][NCUSTOM][4];
 
 static const char *cs(const char *c) { return c ? c : "-"; }
@@ -96,7 +96,7 @@ static void do_name(const char *custom, const char *name) {
 				if (!u || strcmp(u, name) != 0)
 					h_fail("naming:inversion", "compress -F %s -S %s '%s' -> '%s'; decompress -F %s -> '%s' (must give the original name) replay=%s",
 					       MFNAME[cfm[f]], cs(custom), name, t, MFNAME[dfm[k]], u ? u : "(skipped)", rj);
-			} else if (cls == 1) { inv_shadow++; if (inv_shadow <= 2 && !dumping) printf("SAMPLE documented shadowing: -S %s '%s' -> '%s' -> '%s'\n", custom, name, t, u ? u : "(skipped)"); }
+			} else if (cls == 1) { inv_shadow++; if (inv_shadow <= 3 && !dumping && sample_ok) printf("SAMPLE documented shadowing: -S %s '%s' -> '%s' -> '%s'\n", custom, name, t, u ? u : "(skipped)"); }
 			else {
 				inv_tar++;
 				char tarred[600]; snprintf(tarred, sizeof tarred, "%s.tar", name);
@@ -143,6 +143,7 @@ int main(int argc, char **argv) {
 			if (suffix_is_set()) h_fail("naming:invalid-suffix-accepted", "a rejected suffix became the custom suffix replay={\"harness\":\"c19_suffix\",\"badsuffix\":\"%s\"}", bad[i]); }
 	}
 	long names = 0;
+	sample_ok = shard == 0;
 	for (int ci = 0; ci < NCUSTOM && !h_expired(); ci++) {
 		const char *custom = CUSTOM[ci];
 		if (custom) suffix_set(custom);	// (there is no way back to "no custom suffix", hence none comes first)
